@@ -21,8 +21,9 @@ if ROOT not in sys.path:
 
 from pyvc import front, contract as contract_mod  # noqa: E402
 
-EVIDENCE_DIR = os.path.join(ROOT, "evidence")
-REPLAY_DIR = os.path.join(ROOT, "replays")
+# scratch runs against seeded changes (tools/try_patch.sh) must not overwrite the evidence of the real tree
+EVIDENCE_DIR = os.environ.get("VERIF_EVIDENCE_DIR") or os.path.join(ROOT, "evidence")
+REPLAY_DIR = os.environ.get("VERIF_REPLAY_DIR") or os.path.join(ROOT, "replays")
 LEDGER = os.path.join(ROOT, "baseline", "obligations.json")
 KNOWN = os.path.join(ROOT, "known_findings.json")
 
